@@ -98,6 +98,7 @@ type Monitor struct {
 	states      map[string]struct{}
 	ioFaultyListener bool // a listener write failed: must-respond obligations off for that request
 	serverClosed     bool
+	serverClosedAt   int64 // (0 while open)
 	srvWriteFailed   map[string]bool
 	MustMax          int // peer->client payloads up to this size must be delivered (loss-free)
 	NoMust           bool
@@ -321,6 +322,9 @@ func (m *Monitor) IOFaulted(role, op, addr string) {
 		i := strings.LastIndex(addr, ">")
 		m.srvWriteFailed[addr[i+1:]] = true
 	case role == "listener" && op == "Accept":
+		if !m.serverClosed {
+			m.serverClosedAt = m.K.Now()
+		}
 		m.serverClosed = true
 	}
 }
